@@ -506,6 +506,9 @@ func (fr *Frame) applyContract(b *ssa.BasicBlock, ct *Contract, c *ssa.CallCommo
 	if ct.Trusted {
 		vc.trust("trusted contract (body not verified): " + ct.FullKey())
 	}
+	if vc.locksOn && vc.lockObls && !ct.Locks && ct.Fn != nil && inModule(ct.Fn) && vc.eng.takesLocks(ct.Fn, 0, map[*ssa.Function]bool{}) {
+		vc.note("callee " + ct.FullKey() + " takes locks and is under a contract without `locks`: assumed to leave them as found, its place in the lock order is not checked")
+	}
 	ord := vc.callOrd[ct.Key]
 	vc.callOrd[ct.Key]++
 	base := fmt.Sprintf("call-pre:%s:%s#%d", root, ct.Key, ord)
@@ -562,7 +565,16 @@ func (fr *Frame) applyContract(b *ssa.BasicBlock, ct *Contract, c *ssa.CallCommo
 		}
 		for k, cl := range ct.Requires {
 			g := vc.evalClause(cl, args, st, fr)
-			o := vc.addObl("call-pre", root, fmt.Sprintf("%s:%d", base, k), reach, g, pos)
+			kind, nm := "call-pre", fmt.Sprintf("%s:%d", base, k)
+			if vc.locksOn && (vc.lockObls || vc.guardObls) && strings.Contains(cl.Text, "held(") && vc.inDispatch == 0 {
+				// what the callee needs held is an obligation of the lock discipline
+				// (kept under nosafety, unlike the other preconditions)
+				kind, nm = "lock", fmt.Sprintf("lock:%s:call-held:%s#%d:%d", root, ct.Key, ord, k)
+			}
+			if vc.locksOn && (vc.lockObls || vc.guardObls) && strings.Contains(cl.Text, "held(") && vc.inDispatch > 0 {
+				vc.trust("called through an interface: that " + ct.FullKey() + " is entered with the locks its contract requires held is not checked at the interface call (the caller up the stack holds them)")
+			}
+			o := vc.addObl(kind, root, nm, reach, g, pos)
 			o.Clause = cl.Text
 			vc.assume(o.Goal)
 		}
@@ -876,7 +888,9 @@ func (fr *Frame) invoke(b *ssa.BasicBlock, c *ssa.CallCommon, st *State, reach s
 		// build a synthetic CallCommon-like invocation
 		cc := &ssa.CallCommon{Value: f, Args: nil}
 		_ = cc
+		vc.inDispatch++
 		res := fr.callFuncSig(b, f, c, append([]Val{rv}, args...), alt, r2, pos)
+		vc.inDispatch--
 		conds = append(conds, cond)
 		sts = append(sts, alt)
 		results = append(results, res)
